@@ -57,8 +57,23 @@ def main():
             if hasattr(mod, "search"):
                 mod.search(chk, driver, tier)
         return chk.finish(known_lines, getattr(mod, "NOTE", ""))
-    except Exception:
-        traceback.print_exc()
+    except Exception as ex:
+        tb = traceback.format_exc()
+        sys.stderr.write(tb)
+        # An exception that escapes from bumpver's OWN code while the harness drives it the way it does on the unchanged tree (where no
+        # such exception occurs) is a change of behaviour of the implementation, not a tool error: the correspondence is broken.  It is
+        # reported like a broken obligation for which no failing input of the property itself was found; the traceback is the replay.
+        # Anything else (an exception inside the harness) stays a tool error (exit 2).
+        repo_src = os.path.join(os.path.realpath(common.REPO), "src") + os.sep
+        frames = traceback.extract_tb(ex.__traceback__)
+        if frames and os.path.realpath(frames[-1].filename).startswith(repo_src):
+            name = "%s-exc-%s.json" % (pid, __import__("hashlib").sha1(tb.encode()).hexdigest()[:8])
+            rp = chk.write_replay(name, {"property": pid, "kind": "no-failing-input-found", "broken": [
+                "correspondence: the implementation raised %s in %s:%d (%s), which the model and the unchanged code never do on these inputs" % (
+                    type(ex).__name__, os.path.relpath(frames[-1].filename, common.REPO), frames[-1].lineno, frames[-1].name)],
+                "traceback": tb[-4000:], "seed": chk.seed, "tier": tier})
+            print("VIOLATION property=%s replay=%s no-failing-input-found" % (pid, rp), flush=True)
+            return 1
         return 2
 
 
